@@ -3,8 +3,8 @@
                      (value_eq) to the original -- version skew loses nothing that is not default;
    copy_then_equal   capnp.Equal(source, copy) is true for a deep copy (model equal_m, C17). *)
 From CV Require Import Value.ValueEq Value.ValueEqProofs Value.EqualM Value.Den Value.DenFacts Value.DenLists
-                       Value.CanonSpec Value.CanonProofs Value.CanonProofs2 Value.CanonMListC Value.EqualCorrect
-                       Value.CanonMLoop Value.CanonMHeap Value.CanonMInd Value.CopyValue Value.CopyValueHeap Value.CopyValueInd Value.VDec Value.VDecProofs Value.EqualProofs.
+                       Value.CanonSpec Value.CanonProofs Value.CanonProofs2 Value.CanonMBlocks Value.EqualCorrect
+                       Value.CanonMLoop Value.CanonMHeap Value.CanonMInd Value.CopyValue Value.CopyValueHeap Value.CopyValueDefs Value.CopyValueInd Value.VDec Value.VDecProofs Value.EqualProofs.
 From CV Require Import Core.ReaderFacts Core.SafetyProofs Core.BuilderFacts Core.CopySafe.
 From Coq Require Import ZifyBool ZifyNat.
 Open Scope Z_scope.
@@ -55,20 +55,22 @@ Qed.
    result.  [msg_ok [D']]: the destination segment consists of bytes (an invariant of the builder
    model not tracked by this development's single-segment view, hence a hypothesis here). *)
 Theorem copy_then_equal : forall m f D cap rl a src v fc w' c fx,
-  msg_ok m -> hinv D -> 0 <= a -> a mod 8 = 0 -> a + 8 <= zlen D ->
+  msg_ok m -> hinv D -> bytes_ok D -> 0 <= a -> a mod 8 = 0 -> a + 8 <= zlen D ->
   wf_ptr m src -> aligned src -> caligned src -> ctag_ok m src -> den true m 0 [] src v -> cvdom v = true ->
   write_ptr f true (dstw D cap m rl) 0 a InSrc src fc = Ok w' ->
   cfg_strict c = true -> all_fixed fx ->
   exists D' cap' rl' q, w' = dstw D' cap' m rl' /\
     (exists dep rlx rlx', readPtr true [D'] rlx 0 D' a dep = (Ok q, rlx')) /\
-    (msg_ok [D'] -> forall fuel st b st',
+    (forall fuel st b st',
        equal_m fuel c fx (mkEC m [] [D'] [] false) st src q = (EOk b, st') -> b = true).
 Proof.
-  intros m f D cap rl a src v fc w' c fx Hm Hi Ha Ham Hab Hwf Hal Hcal Hctg D0 Hsd H Hs Hfx.
+  intros m f D cap rl a src v fc w' c fx Hm Hi HbD Ha Ham Hab Hwf Hal Hcal Hctg D0 Hsd H Hs Hfx.
   destruct (copy_value_ptr m f D cap rl a src v fc w' Hm Hi Ha Ham Hab Hwf Hal Hcal Hctg D0 Hsd H)
-    as (D' & cap' & rl' & -> & Hinv & (dep & rlx & q & rlx' & R & Dq)).
+    as (D' & cap' & rl' & -> & Hinv & Hbd' & (dep & rlx & q & rlx' & R & Dq)).
   exists D', cap', rl', q. split; [reflexivity|]. split; [exists dep, rlx, rlx'; exact R|].
-  intros Hmd fuel st b st' E.
+  intros fuel st b st' E.
+  assert (Hmd : msg_ok [D']).
+  { constructor; [|constructor]. split; [destruct Hinv as [_ X]; unfold maxSegmentSize; exact X|apply Hbd'; exact HbD]. }
   eapply (equal_layout_independent c fx (mkEC m [] [D'] [] false) fuel st src q b st' v v Hs Hfx); try eassumption.
   - exact (Dq 1 []).
   - apply value_eq_refl.
@@ -92,7 +94,7 @@ Proof.
   split; [split; vm_compute; [reflexivity|discriminate]|].
   split.
   { intros _. vm_compute. repeat split; discriminate. }
-  split; [intros _; reflexivity|]. split; [intros K; discriminate K|]. split; [intros _ K; discriminate K|]. split; [reflexivity|].
+  split; [intros _; reflexivity|]. split; [intros K; vm_compute in K; discriminate K|]. split; [intros _ K; vm_compute in K; discriminate K|]. split; [reflexivity|].
   eexists. eexists. split; [apply (vdec_den 10 1000000); vm_compute; reflexivity|].
   split; vm_compute; reflexivity.
 Qed.
